@@ -133,8 +133,8 @@ class M(Model):
         self.T = int(b.env.time_limit)
         rf = getattr(b.env, "_reward_fn", None)
         # the documented defaults of DenseRewardFn; constructor arguments when another instance was passed
-        self.r_conn = float(getattr(rf, "connected_reward", 1.0))
-        self.r_step = float(getattr(rf, "timestep_reward", -0.03))
+        self.r_conn = float(b.meta["connected_reward"]) if "connected_reward" in b.meta else float(getattr(rf, "connected_reward", 1.0))
+        self.r_step = float(b.meta["timestep_reward"]) if "timestep_reward" in b.meta else float(getattr(rf, "timestep_reward", -0.03))
 
     # ------------------------------------------------------------------------------------ helpers
     def _tab(self, s):
